@@ -9,6 +9,7 @@ import (
 	"math/rand"
 	"os"
 	"path/filepath"
+	"runtime"
 	"strings"
 	"sync"
 	"testing"
@@ -30,7 +31,7 @@ type vfCall struct {
 	err   string
 }
 
-func vfShutdownHistory(t *testing.T, rng *rand.Rand, router int) (rec map[string]any, stuck []string, leaked string, panicked string) {
+func vfShutdownHistory(t *testing.T, rng *rand.Rand, router int, hammer bool) (rec map[string]any, stuck []string, leaked string, panicked string) {
 	var calls []*vfCall
 	var mu sync.Mutex
 	finished := make(chan struct{})
@@ -113,6 +114,34 @@ func vfShutdownHistory(t *testing.T, rng *rand.Rand, router int) (rec map[string
 			}
 			nops := 25 + rng.Intn(40)
 			cancelAt := rng.Intn(nops)
+			if hammer {
+				// many callers hammering a request / reply API while the context is cancelled at an arbitrary instant
+				var wg sync.WaitGroup
+				for w := 0; w < 8; w++ {
+					c := &vfCall{name: "ListPeers+GetTopics x200 (hammer)"}
+					mu.Lock()
+					calls = append(calls, c)
+					mu.Unlock()
+					wg.Add(1)
+					go func() {
+						defer wg.Done()
+						for k := 0; k < 200; k++ {
+							psA.ListPeers("t0")
+							psA.GetTopics()
+						}
+						mu.Lock()
+						c.done = true
+						mu.Unlock()
+					}()
+				}
+				for k := rng.Intn(4000); k > 0; k-- {
+					runtime.Gosched()
+				}
+				cancelA()
+				cancelled = true
+				cancelAt = -1
+				wg.Wait()
+			}
 			callCtx := func() (context.Context, context.CancelFunc) {
 				return context.WithTimeout(context.Background(), time.Hour)
 			}
@@ -387,7 +416,7 @@ func TestVF_Shutdown(t *testing.T) {
 	ncalls, nafter := 0, 0
 	for c := 0; c < ncases; c++ {
 		router := c % 3
-		rec, stuck, leaked, pan := vfShutdownHistory(t, rng, router)
+		rec, stuck, leaked, pan := vfShutdownHistory(t, rng, router, c%2 == 1)
 		for _, s := range rec["calls"].([]string) {
 			ncalls++
 			if strings.Contains(s, "after=true") {
